@@ -50,3 +50,16 @@ package redirect
 //@ iface Validator.IsValidRedirect
 //@ prop C06
 //@ nomod
+
+// ------------------------------------------------------------------ C06 / C19: constructors
+//@ func NewValidator
+//@ prop C06 C19
+//@ fresh
+//@ ensures[validator-over-the-given-domains] result != nil && typeis(result, "*validator") && as(result, "*validator").allowedDomains == allowedDomains
+
+//@ func NewAppDirector
+//@ prop C06 C19
+//@ fresh
+//@ ensures[director-with-the-given-validator-and-a-prefix-ending-in-a-slash] result != nil && typeis(result, "*appDirector")
+//@     && as(result, "*appDirector").validator == opts.Validator && HasSuffix(as(result, "*appDirector").proxyPrefix, "/")
+//@     && HasPrefix(as(result, "*appDirector").proxyPrefix, opts.ProxyPrefix)
